@@ -44,7 +44,7 @@ func ocspAlphabet() []ocspBehav {
 	bs := R("issuer", "match", ocsp.Good, "+1h", "none")
 	bs.BadSig = true
 	al = append(al, bs)
-	for _, k := range []string{"badurl", "scheme", "transport", "timeout", "http404", "http500", "http302", "http500-good-body", "http404-good-body", "http201-good-body", "empty", "truncated", "oversized", "garbage", "readerr",
+	for _, k := range []string{"badurl", "scheme", "emptyurl", "blankurl", "transport", "timeout", "http404", "http500", "http302", "http500-good-body", "http404-good-body", "http201-good-body", "empty", "truncated", "oversized", "garbage", "readerr",
 		"canned-unauthorized", "canned-malformed", "canned-internal", "canned-trylater", "canned-sigrequired"} {
 		al = append(al, ocspBehav{Kind: k})
 	}
@@ -60,7 +60,7 @@ func runOCSPCaseSerial(w *CaseWriter, bs []ocspBehav, entry int, st time.Time, n
 	var kinds []string
 	for _, b := range bs {
 		switch b.Kind {
-		case "badurl", "scheme":
+		case "badurl", "scheme", "emptyurl", "blankurl":
 			kinds = append(kinds, b.Kind)
 		default:
 			kinds = append(kinds, "ok")
